@@ -1710,6 +1710,10 @@ outer:
 		if len(a.Elements) == len(b.Elements) && a.Inverted != b.Inverted {
 			return false
 		}
+		if len(a.Elements) < len(b.Elements) && a.Inverted {
+			// b needs the last element of a to match where a forbids it
+			return false
+		}
 		*dcs = append((*dcs)[:i-1], (*dcs)[i:]...)
 		i--
 	}
